@@ -649,23 +649,32 @@ func viewFuncs(p *core.Prog, view *ssa.Function) []*ssa.Function {
 type retCase struct {
 	Val ssa.Value
 	At  ssa.Instruction // the return itself, or the terminator of the predecessor the value comes from
+	To  *ssa.BasicBlock // the block the value flows into from At (nil when At is the return)
 }
 
 func retCases(ret *ssa.Return, i int) []retCase {
 	v := returnValue(ret, i)
 	var out []retCase
+	var via *ssa.BasicBlock
 	var expand func(v ssa.Value, blk *ssa.BasicBlock, at ssa.Instruction, depth int)
 	expand = func(v ssa.Value, blk *ssa.BasicBlock, at ssa.Instruction, depth int) {
 		ph, ok := v.(*ssa.Phi)
 		if !ok || ph.Block() != blk || depth > 4 {
-			out = append(out, retCase{v, at})
+			rc := retCase{Val: v, At: at}
+			if at != ssa.Instruction(ret) {
+				rc.To = via
+			}
+			out = append(out, rc)
 			return
 		}
 		// only when nothing but phis (and pure value computations) precede `at` in blk would the split be exact;
 		// the split is still sound for "on every path to this value" rules: each case names a prefix of the path
 		for k, e := range ph.Edges {
 			pred := blk.Preds[k]
+			saved := via
+			via = blk
 			expand(e, pred, pred.Instrs[len(pred.Instrs)-1], depth+1)
+			via = saved
 		}
 	}
 	expand(v, ret.Block(), ret, 0)
